@@ -136,7 +136,14 @@ func (r *Runner) monC11(s *Step) {
 		if all, _ := r.referenceSyncAllocatesAll(); all {
 			for _, c := range missing {
 				sg := r.Inst.Policy + ":" + kind
-				if cr, ok := r.cacheRes(c.ID); s.Stale && ok && cr.Shares != c.Shadow.Shares {
+				_, mt := EffAnn(r.M.Pods[c.Pod], c.Name, "memory-type."+nsKey)
+				_, cs := EffAnn(r.M.Pods[c.Pod], c.Name, "cold-start."+nsKey)
+				if r.Inst.Policy == PolTA && (mt || cs) {
+					// KF10: only some pools have the memory types this container is restricted to; pool selection ranks
+					// affinity above a failed memory offer, so whether it can be (re-)allocated depends on where its
+					// siblings were put first - the reference run may succeed where the restarted plugin did not
+					sg += ":memory-type-restricted"
+				} else if cr, ok := r.cacheRes(c.ID); s.Stale && ok && cr.Shares != c.Shadow.Shares {
 					// KF7: the stale cache's (older, different) CPU request of this container was kept instead of
 					// what the runtime reports, and that older request does not fit any more
 					sg += ":stale-requirements"
